@@ -155,7 +155,9 @@ def check(mod, tier: str, seed: int, *, replay: str | None = None, report_as: st
                 evs = c.get("events") or []
                 if evs and not c.get("_repeated"):
                     r_ = _random.Random(len(evs) * 7919 + seed)
-                    c["events"] = evs + [dict(e, again=True) for e in r_.sample(evs, min(rep, len(evs)))]
+                    # (only questions are repeated: an event that CHANGES the dataset in place is part of the history)
+                    pool = [e for e in evs if e.get("a") not in getattr(mod, "NO_REPEAT", ("Mutate", "SetPositive"))]
+                    c["events"] = evs + [dict(e, again=True) for e in r_.sample(pool, min(rep, len(pool)))]
                     c["_repeated"] = True
         for k, c in enumerate(cases):
             c.setdefault("tid", k + 1)
